@@ -496,6 +496,20 @@ func leakCheck() (leak bool, dump []string, inconclusive bool) {
 // ---------------------------------------------------------------------------
 // SIGKILL of the receiving process after k packets (real pipes)
 
+// finSpy notes whether the wrapped stream delivered a FIN packet.
+type finSpy struct {
+	fsutil.Stream
+	fin atomic.Bool
+}
+
+func (f *finSpy) RecvMsg(m interface{}) error {
+	err := f.Stream.RecvMsg(m)
+	if p, ok := m.(*types.Packet); ok && err == nil && p.Type == types.PACKET_FIN {
+		f.fin.Store(true)
+	}
+	return err
+}
+
 type countingWriter struct {
 	w    io.Writer
 	n    int
@@ -535,7 +549,7 @@ func c04Sigkill(c *core.Ctx, r *core.Result, plan faultPlan, src *tree.Tree, des
 	cw := &countingWriter{w: rp.in, k: plan.K, kill: rp.Kill}
 	ctx, cancel := context.WithCancel(context.Background())
 	defer cancel()
-	s := util.NewProtoStream(ctx, rp.out, cw)
+	s := &finSpy{Stream: util.NewProtoStream(ctx, rp.out, cw)}
 	done := make(chan error, 1)
 	go func() { done <- fsutil.Send(ctx, s, newSynthFS(src), nil) }()
 	var sendErr error
@@ -566,8 +580,13 @@ func c04Sigkill(c *core.Ctx, r *core.Result, plan faultPlan, src *tree.Tree, des
 		r.Count("faults_fired", 1)
 		r.Count("receivers_killed", 1)
 		r.Nontrivial = true
-		if sendErr == nil {
-			r.Violate("send-false-success", "%s: the receiving process was killed after %d packets but Send returned nil", desc, plan.K)
+		// the kill may come after the receiver has sent its FIN (small trees:
+		// the k-th packet is the sender's FIN echo): success is then earned
+		if sendErr == nil && s.fin.Load() {
+			r.Count("receiver_killed_after_its_fin_send_nil_is_legitimate", 1)
+		}
+		if sendErr == nil && !s.fin.Load() {
+			r.Violate("send-false-success", "%s: the receiving process was killed after %d packets, the sender never received FIN, but Send returned nil", desc, plan.K)
 		}
 	} else {
 		r.Count("fault_not_fired", 1)
